@@ -276,6 +276,7 @@ func runBenign(def *propertyDef, r *Report, repo, verif string, st *runStats) {
 			return
 		}
 	}
+	runFuzzControls(def, r, repo, verif, st)
 	for _, e := range es {
 		rel := false
 		for _, p := range e.Focus {
@@ -340,6 +341,64 @@ func runBenign(def *propertyDef, r *Report, repo, verif string, st *runStats) {
 			} else {
 				sort.Strings(bad)
 				r.Undecided("G.benign", "benign:"+e.ID, "-", "FALSE ALARM of this checker on a behaviour-preserving refactoring ("+e.Summary+"): "+bad[0])
+			}
+		}()
+	}
+}
+
+// runFuzzControls: whole-tree syntactic rewrites that preserve semantics (every comparison mirrored, every if/else
+// negated and swapped, De Morgan on every condition, if-inits moved out, else-ifs nested, tagless switches as
+// if-chains) must leave the property's rules silent.
+func runFuzzControls(def *propertyDef, r *Report, repo, verif string, st *runStats) {
+	known, _ := loadKnownFindings(filepath.Join(verif, "KNOWN_FINDINGS.txt"))
+	for _, modes := range []string{"mirror", "negate,demorgan", "ifinit,elseif,switch2if", "mirror,negate,demorgan,ifinit,elseif,switch2if"} {
+		scratch, err := os.MkdirTemp("", "wtcheck-fuzz-")
+		if err != nil {
+			continue
+		}
+		func() {
+			defer os.RemoveAll(scratch)
+			if err := copyTree(repo, scratch); err != nil {
+				return
+			}
+			n := applyAstFuzz(modes, scratch)
+			w, err := loadWorld(LoadConfig{Dir: scratch})
+			if err != nil {
+				r.Notes = append(r.Notes, "fuzz "+modes+": skipped, the rewritten tree does not load: "+err.Error())
+				return
+			}
+			sub := newReport(def.ID, "quick")
+			ruleG0(w, sub)
+			func() {
+				defer func() {
+					if p := recover(); p != nil {
+						sub.Undecided("G.panic", "analyser", "-", fmt.Sprint(p))
+					}
+				}()
+				def.Run(w, sub)
+			}()
+			sub.checkFloors()
+			var bad []string
+			for _, o := range sub.Obligs {
+				if o.Verdict == Discharged {
+					continue
+				}
+				isKnown := false
+				for _, k := range known {
+					if k.Property == def.ID && k.Rule == o.Rule && k.Key == o.Key {
+						isKnown = true
+					}
+				}
+				if !isKnown {
+					bad = append(bad, o.Rule+" ["+o.Key+"] "+o.Detail)
+				}
+			}
+			st.Corpus = append(st.Corpus, map[string]interface{}{"id": "fuzz/" + modes, "note": fmt.Sprintf("%d syntactic rewrites", n), "status": map[bool]string{true: "silent", false: "ALARM"}[len(bad) == 0]})
+			if len(bad) == 0 {
+				r.OK("G.benign", "fuzz:"+modes, "-", fmt.Sprintf("silent on the tree with %d semantics-preserving syntactic rewrites (%s)", n, modes))
+			} else {
+				sort.Strings(bad)
+				r.Undecided("G.benign", "fuzz:"+modes, "-", "FALSE ALARM of this checker on a semantics-preserving syntactic rewrite ("+modes+"): "+bad[0])
 			}
 		}()
 	}
